@@ -316,8 +316,8 @@ Proof. unfold cd_touch. destruct (validate name); fdt_auto. Qed.
 (** * sharded.rs *)
 Lemma fdt_sort_by_load h n t ids : fdt (sort_by_load h n t ids) 0 (fun _ => 0).
 Proof. unfold sort_by_load. fdt_auto. Qed.
-Lemma fdt_file_exists p : fdt (file_exists p) 0 (fun _ => 0).
-Proof. unfold file_exists. fdt_auto. Qed.
+Lemma fdt_file_exists p n : fdt (file_exists p n) 0 (fun _ => 0).
+Proof. unfold file_exists. destruct (validate n); fdt_auto. Qed.
 Lemma fdt_update_estimate h id u : fdt (update_estimate h id u) 0 (fun _ => 0).
 Proof. unfold update_estimate. fdt_auto. Qed.
 #[export] Hint Resolve fdt_sort_by_load fdt_file_exists fdt_update_estimate : fdt.
